@@ -118,6 +118,38 @@ CLAIMS = {
        "entry's own protected text and the shared payload).",
   technique="Lean 4 theorem proving (invariant over histories) + exhaustive short-history differential",
   design="§6 C16"),
+ "C02": dict(
+  text="Machine-checked proof on the model of jose_jwe_dec_cek(_io)/jose_jwe_dec_jwk and the encr.dec / wrap.unw hooks, "
+       "for every instance of the primitives: one-shot decryption succeeds only if the ciphertext text is canonical, the "
+       "algorithm is the merged header's (CEK declaring another is refused), key and IV have exactly the algorithm's "
+       "lengths, and the primitive accepts (key, iv, aad, ciphertext, tag) where aad = protected text, then '.' and "
+       "the aad text IN FULL; GCM: 16-byte tag; CBC-HMAC: tag = first half of HMAC(first key half, aad||iv||ct||AL) "
+       "checked before CBC decryption under the second half; zip honoured only from the protected header; streaming "
+       "verdict = one-shot verdict for every chunking; AES-KW and PBES2 unwrapping bound to encrypted_key / p2s / p2c "
+       "(bounds before derivation). Differential run: ~18k mutated tokens over all 21 x 6 combinations (every iv/tag "
+       "character, positions incl. the tail of aad/protected/ciphertext/encrypted_key, epk, apu/apv, p2s/p2c, "
+       "GCMKW iv/tag, key edits, wrong keys), jose-made and Lean-made tokens, against the independent Lean "
+       "implementation; every mutation that must be refused is asserted directly on jose.",
+  note="Trusted: Lean kernel, standard axioms; primitives are parameters; the model is tied to lib/jwe.c and "
+       "lib/openssl/*.c by differential testing against Jose/Crypto (AES, GCM, CBC, KW, RSAES, PBKDF2, ECDH); "
+       "plaintext blocks are released before `done` in streaming mode (inherent; the property speaks of the verdict).",
+  technique="Lean 4 theorem proving + differential correspondence with an independent implementation",
+  design="§6 C02"),
+ "C04": dict(
+  text="Machine-checked proof on the model of jose_jwe_enc_cek and the content encryptors: for every family what is "
+       "sealed opens again (under stated GCM/CBC/HMAC-length laws), ciphertext and tag are exactly the primitives' "
+       "outputs on the RFC 7518 inputs (GCM over aad-in-full; CBC under the second key half, tag = first half of "
+       "HMAC over aad||iv||ct||AL under the first), the members iv/tag/ciphertext written are read back unchanged "
+       "(base64url through JSON strings proved), aad unaffected, compression one stream iff zip is protected, "
+       "inflate∘deflate law ⇒ plaintext. Differential/interop run with a RAND_bytes tape: all 21 key-management x 6 "
+       "content algorithms x zip x aad x header placement bit-for-bit where the tape determines the output, every "
+       "token cross-decrypted by both implementations and refused for foreign keys, inferred algorithms, 1..3 "
+       "recipients, re-wrap, streamed enc/dec under random chunkings, RFC 7520 §5 vectors.",
+  note="Trusted: Lean kernel, standard axioms; primitive laws are hypotheses validated by interop; key wrapping "
+       "round trip (wrp/unw) is covered by the correspondence and per-family theorems in C02, not by one general theorem; "
+       "known finding recorded: an RSA1_5 recipient shadows a later recipient of another RSA key.",
+  technique="Lean 4 theorem proving + bidirectional differential interop with an independent Lean implementation",
+  design="§6 C04"),
 }
 
 NOT_YET = "check not built yet (framework under construction); will be claimed when its Lean theorems and correspondence exist"
